@@ -2189,6 +2189,16 @@ fn generate_expression(
                     }
                     name => panic!("Unimplemented global intrinsic: {}", name),
                 }
+            } else if matches!(
+                context.global_variable_modes.get(v),
+                Some(GlobalMode::Constant)
+            ) {
+                // Constants stay declared inside their namespace so are referenced by their full name
+                ast::Expression::Identifier(scoped_name_to_identifier(
+                    context
+                        .name_map
+                        .get_name_qualified(NameSymbol::GlobalVariable(*v)),
+                ))
             } else {
                 ast::Expression::Identifier(ast::ScopedIdentifier::trivial(
                     context.get_global_name(*v)?,
